@@ -1,6 +1,6 @@
 (* C19 — Multi-objective ranking is Pareto-consistent and MOASHA follows it.
    Only statements; every proof is [exact <lemma of proofs/ParetoProofs.v>]. *)
-From Verif Require Import model.Base model.Pareto proofs.ParetoProofs.
+From Verif Require Import model.Base model.Pareto proofs.ParetoProofs proofs.ParetoRankProofs.
 From Coq Require Import Permutation.
 
 (* The Pareto filter marks exactly the points no other point dominates:
@@ -94,10 +94,49 @@ Theorem c19_moasha_enters_once :
 Proof. exact bracket_on_result_nodup. Qed.
 Print Assumptions c19_moasha_enters_once.
 
+(* ---- MOASHA follows the Pareto rank (NonDominatedPriority after fix bd08f9a) ----------------
+   The priority of a listed point is its position in the non-dominated sort; points cut off by
+   max_num_samples share the lowest priority len(sorted). *)
+Theorem c19_priority_is_sort_position :
+  forall sorted n j p, NoDup sorted -> (j < n)%nat -> nth_error sorted p = Some j ->
+    nth j (priority_of_sorted sorted n) 0 = injn p.
+Proof. exact priority_is_position. Qed.
+Print Assumptions c19_priority_is_sort_position.
+
+Theorem c19_priority_unlisted_is_lowest :
+  forall sorted n j, (j < n)%nat -> ~ In j sorted ->
+    nth j (priority_of_sorted sorted n) 0 = injn (length sorted).
+Proof. exact priority_unlisted. Qed.
+Print Assumptions c19_priority_unlisted_is_lowest.
+
+(* With a full sort (any permutation of the m+1 rows; the reporting trial is the last row, m):
+   MOASHA stops the trial exactly when its position p in the sort satisfies p/(m+1) > 1/rf,
+   i.e. when it is NOT within the best 1/rf fraction of the points recorded at the rung. *)
+Theorem c19_moasha_follows_sort_position :
+  forall rf sorted m p, Permutation sorted (seq 0 (S m)) -> nth_error sorted p = Some m ->
+    let ps := priority_of_sorted sorted (S m) in
+    (moasha_stop rf ps (last ps 0) = true <-> 1 / rf < injn p / injn (S m)).
+Proof. exact moasha_stop_nd. Qed.
+Print Assumptions c19_moasha_follows_sort_position.
+
+(* ... and that position lies inside the index range of the point's Pareto layer, for EVERY
+   within-layer order: a point of layer k is preceded by all points of the layers < k and by
+   fewer than all points of the layers <= k. *)
+Theorem c19_sort_position_in_layer :
+  forall (eps : list nat -> list nat), (forall l, length (eps l) = length l) -> (forall l, Permutation (eps l) l) ->
+  forall X j k,
+    let layers := nd_layers X (seq 0 (length X)) (length X) in
+    In j (nth k layers []) ->
+    exists p, nth_error (nondominated_sort_flat eps X) p = Some j /\
+              (length (concat (firstn k layers)) <= p < length (concat (firstn (S k) layers)))%nat.
+Proof. exact nd_sort_position_in_layer. Qed.
+Print Assumptions c19_sort_position_in_layer.
+
 (* non-vacuity: a concrete set with a tie, a duplicate and a dominated point *)
 Example c19_example :
   let X := [[1;2]; [2;1]; [2;2]; [1;2]; [3;0]]%Q in
   Forall (fun x => length x = 2%nat) X /\
   pareto_efficient X = [true; true; false; true; true] /\
-  nondominated_sort_flat (fun l => l) X = [0;1;3;4;2]%nat.
+  nondominated_sort_flat (fun l => l) X = [0;1;3;4;2]%nat /\
+  priority_of_sorted [0;1;3;4;2]%nat 5 = [0; 1; 4; 2; 3]%Q.
 Proof. vm_compute. repeat split; repeat constructor. Qed.
